@@ -101,7 +101,14 @@ def tableclass : P String := do
   let nv ← nat
   let vt ← many nv nat
   let t ← node
-  match tableFeatures anc (fun i => vt.contains i) t with
+  -- `hasValidText` is computed by the model (innerText with visibility from the style attributes); the
+  -- implementation's answers, given for the header / object kinds, must agree
+  let mine := validTextIds t
+  let kinds := ["caption", "th", "col", "colgroup", "embed", "object", "applet", "iframe"]
+  let asked := (t.descElems.filter (fun e => kinds.contains e.tag)).map (·.id)
+  let bad := asked.filter (fun i => mine.contains i != vt.contains i)
+  if !bad.isEmpty then pure s!"validtext-mismatch at {bad}" else
+  match tableFeatures anc (fun i => mine.contains i) t with
   | none => pure "unmodelled"
   | some f =>
     let spec := goReturn (classifySpec f)
